@@ -1,8 +1,8 @@
 SPECIFICATION Spec
 CONSTANTS
   B = 4
-  Conns = {0, 1}
-  Versions = {20}
+  Conns = {0, 1, 2}
+  Versions = {14, 20}
   ObjUuids = {101, 102}
   SvcUuids = {201}
   Events = {0}
@@ -11,13 +11,13 @@ CONSTANTS
   Payloads = {1}
   TypeIds = {301}
   Caps <- CapsOne
-  MaxCookie = 3
+  MaxCookie = 4
   InqBound = 1
-  Kinds = {"CreateObject", "DestroyObject", "CreateService", "AddBusListenerFilter", "RemoveBusListenerFilter", "ClearBusListenerFilters", "StartBusListener", "StopBusListener", "DestroyBusListener"}
-  Faults = {"ends"}
+  Kinds = {"CreateObject", "DestroyObject", "CreateService", "CreateService2", "DestroyService", "QueryServiceVersion", "QueryServiceInfo", "Sync"}
+  Faults = {"ends", "dropped", "sdc", "sdb", "sdi"}
   WrongKinds = {}
-  MsgBudget = 3
-  ScriptSel = "lst"
+  MsgBudget = 4
+  ScriptSel = "none"
   V0 = 20
   V1 = 20
 VIEW view
